@@ -846,24 +846,44 @@ func c02BIP341(r *core.Run, p *core.Program) {
 	// the literal single bytes: epoch 0 and key_version 0 are zero-valued one-byte slices: checked by "makeslice1" shape above.
 	// undefined hash types: the definedness test
 	falseRes := an.FailKind{Result: 0, Kind: "nil"}
-	guardOb(r, p, rule, "undefined-hash-type", "hash types other than 0-3 and 0x81-0x83 yield no digest", an.GuardSpec{Fn: fn, Fail: falseRes, Match: func(iff *ssa.If) (bool, bool) {
-		// hash_type <= 0x83 false edge  /  hash_type >= 0x81 false edge are the rejecting edges of the range test
-		if ok, f := an.MatchCmpConst(0x83, token.GTR, "param#3")(iff); ok {
-			return true, f
-		}
-		return false, false
-	}})
-	guardOb(r, p, rule, "undefined-hash-type-gap", "hash types 0x04-0x80 yield no digest", an.GuardSpec{Fn: fn, Fail: falseRes, Match: func(iff *ssa.If) (bool, bool) {
-		if ok, f := an.MatchCmpConst(0x81, token.LSS, "param#3")(iff); ok {
-			// only reached when hash_type > 3
-			for _, cc := range controlConds(iff.Block()) {
-				if m, t := an.MatchCmpConst(3, token.LEQ, "param#3")(cc.If); m && t != cc.Truth {
-					return true, f
+	// decided for all 256 values of the hash-type byte by partial evaluation of the function's branches: a
+	// return with a digest is reachable exactly for 0..3 and 0x81..0x83 (whatever form the test is written in)
+	if len(fn.Params) >= 4 {
+		var wrong []string
+		for h := 0; h < 256; h++ {
+			env := an.PEnv{fn.Params[3]: constant.MakeInt64(int64(h))}
+			reach := an.PReach(fn.Blocks[0], env, nil)
+			digest := false
+			for b2 := range reach {
+				if b2 == fn.Recover {
+					continue
+				}
+				if ret, ok := b2.Instrs[len(b2.Instrs)-1].(*ssa.Return); ok && len(ret.Results) > 0 {
+					v := ret.Results[0]
+					// a function with deferred calls returns through a spilled result: take the value stored last in this block
+					if ld, isLd := v.(*ssa.UnOp); isLd && ld.Op == token.MUL {
+						if al, isAl := ld.X.(*ssa.Alloc); isAl {
+							for _, ins := range b2.Instrs {
+								if st, isSt := ins.(*ssa.Store); isSt && st.Addr == ssa.Value(al) {
+									v = st.Val
+								}
+							}
+						}
+					}
+					if c, isC := v.(*ssa.Const); !isC || c.Value != nil {
+						digest = true
+					}
 				}
 			}
+			want := h <= 3 || (h >= 0x81 && h <= 0x83)
+			if digest != want {
+				wrong = append(wrong, fmt.Sprintf("0x%02x", h))
+			}
 		}
-		return false, false
-	}})
+		r.Check(len(wrong) == 0, rule, "undefined-hash-type", p.Pos(fn.Pos()), "a digest can be returned exactly for hash types 0-3 and 0x81-0x83 (all 256 values evaluated)", "hash types for which the existence of a digest differs from BIP341: "+strings.Join(wrong, " "))
+	} else {
+		r.Fail(rule, "undefined-hash-type", p.Pos(fn.Pos()), "unexpected signature of TaprootSigHash")
+	}
 	guardOb(r, p, rule, "single-without-output", "SIGHASH_SINGLE with no output at the input's index yields no digest", an.GuardSpec{Fn: fn, Fail: falseRes,
 		Match: matchCmp(token.GEQ, has("param#2"), has("len", "field:lib/btc.Tx.TxOut"))})
 	// the checker fails on "no digest" and on hash type 0 given explicitly
